@@ -300,8 +300,8 @@ def readU16At (r : Bytes) (off : Nat) : Res Nat :=
   | a :: b :: _ => .ok (a.toNat + 256 * b.toNat)
   | _ => .panic "slice index out of range"
 
-/-- the `for i in 0..count` loop of `parse_merge_cells` with `k` iterations left; `i` and the offset
-    `2 + i * 8` are `usize` (since the robustness fix; they were `u16` in the pinned code) -/
+/-- the `for i in 0..count` loop of `parse_merge_cells` with `k` iterations left (`usize` arithmetic; the
+    slices cannot fail after the length check, the model keeps them as they are written) -/
 def mcLoop (r : Bytes) : Nat → Nat → Res (List Rect)
   | 0, _ => .ok []
   | k + 1, i =>
@@ -322,14 +322,15 @@ def mcLoop (r : Bytes) : Nat → Nat → Res (List Rect)
         | .err e => .err e | .panic e => .panic e | .outOfFuel => .outOfFuel
       | .err e => .err e | .panic e => .panic e | .outOfFuel => .outOfFuel
 
-/-- `parse_merge_cells(r, &mut merge_cells)`: the regions this record appends. A record shorter than its
-    count field, or than the `2 + 8·count` bytes the count announces, is `XlsError::Len` (checks added by the
-    robustness fix; the pinned code slice-indexed and panicked). -/
+/-- `parse_merge_cells(r, &mut merge_cells)`: the regions this record appends. A record shorter than the
+    `2 + 8·count` bytes it announces is `XlsError::Len` (robustness fix b5774ce, ledger D31; the pinned code
+    sliced unchecked and panicked) -/
 def parseMergeCells (r : Bytes) : Res (List Rect) :=
   if r.length < 2 then .err "Len:merge cells"
   else
     match readU16At r 0 with
-    | .ok count => if r.length < 2 + 8 * count then .err "Len:merge cells" else mcLoop r count 0
+    | .ok count =>
+      if r.length < 2 + 8 * count then .err "Len:merge cells" else mcLoop r count 0
     | .err e => .err e | .panic e => .panic e | .outOfFuel => .outOfFuel
 
 /-- the MERGEDCELLS (0x00E5) and EOF (0x000A) arms of the sheet record loop of `parse_workbook` over
@@ -410,22 +411,24 @@ def readTablePart : List Ev → TableMeta → List Bytes → Res (TableMeta × L
     if localName n = nTable then .ok (t, cols) else readTablePart rest t cols
   | _ :: rest, t, cols => readTablePart rest t cols
 
-/-- the geometry arithmetic at the end of `read_table_metadata` on an already parsed reference (after
-    fix D17: the totals rows are subtracted with `totals_row_count`); `u32` additions/subtractions -/
-def tableDimsOf (d : Rect) (hdr totals : Nat) (insertRow : Bool) : Res Rect :=
-  if hdr ≠ 0 ∧ d.sr + hdr ≥ U32 then .panic "u32 add overflow"
-  else
-    let sr := if hdr ≠ 0 then d.sr + hdr else d.sr
-    if totals ≠ 0 ∧ d.er < totals then .panic "u32 sub overflow"
-    else
-      let er := if totals ≠ 0 then d.er - totals else d.er
-      if insertRow ∧ er < 1 then .panic "u32 sub overflow"
-      else .ok ⟨sr, d.sc, if insertRow then er - 1 else er, d.ec⟩
+/-- the canonical empty data rectangle (rows `1 … 0`) `read_table_metadata` stores for a table without a
+    data row -/
+def emptyRect (d : Rect) : Rect := ⟨1, d.sc, 0, d.ec⟩
+
+/-- the geometry arithmetic at the end of `read_table_metadata` on an already parsed reference (after fix
+    D17 and the robustness fix found by C06/C17): `start.0.checked_add(header)`,
+    `end.0.checked_sub(totals)`, then `checked_sub(insert_row as u32)`; when one of them fails or the rows
+    left are reversed the table has no data row and gets the empty rectangle. Never panics. -/
+def tableDimsOf (d : Rect) (hdr totals : Nat) (insertRow : Bool) : Rect :=
+  let ins := if insertRow then 1 else 0
+  if d.sr + hdr < U32 ∧ totals + ins ≤ d.er ∧ d.sr + hdr ≤ d.er - totals - ins then
+    ⟨d.sr + hdr, d.sc, d.er - totals - ins, d.ec⟩
+  else emptyRect d
 
 /-- `get_dimension(ref)` followed by the geometry arithmetic -/
 def tableDims (m : Mode) (ref : Bytes) (hdr totals : Nat) (insertRow : Bool) : Res Rect :=
   match getDimension m ref with
-  | .ok d => tableDimsOf d hdr totals insertRow
+  | .ok d => .ok (tableDimsOf d hdr totals insertRow)
   | .err e => .err e | .panic e => .panic e | .outOfFuel => .outOfFuel
 
 /-- `str::rfind('/')` -/
@@ -553,8 +556,9 @@ def getTableMeta (ts : List TableEntry) (name : Bytes) : Res TableEntry :=
   | some t => .ok t
   | none => .err "TableNotFound"
 
-/-- `table_by_name`: `range.range(dimensions.start, dimensions.end)` on the sheet's range -/
+/-- `table_by_name`: `Range::default()` for an empty or reversed rectangle (robustness fix), else
+    `range.range(dimensions.start, dimensions.end)` on the sheet's range -/
 def tableData {α : Type} [Inhabited α] (range : Range.Rng α) (d : Rect) : Res (Range.Rng α) :=
-  Range.range range d.sr d.sc d.er d.ec
+  if d.sr > d.er ∨ d.sc > d.ec then .ok Range.empty else Range.range range d.sr d.sc d.er d.ec
 
 end Geometry
